@@ -10,6 +10,12 @@ import (
 // GroupingKey is a key to group metrics by label.
 type GroupingKey = uint64
 
+// EmptyGroupingKey is the grouping key of a label set without labels.
+//
+// Every [AggregatedLabels] implementation must return it for an empty set, so
+// the sample of vector() matches aggregated samples without labels.
+const EmptyGroupingKey GroupingKey = 0
+
 // AggregatedLabels is a set of labels.
 type AggregatedLabels interface {
 	// By returns new set of labels containing only given list of labels.
@@ -29,6 +35,6 @@ type emptyLabels struct{}
 
 func (l *emptyLabels) By(_ ...logql.Label) AggregatedLabels                      { return l }
 func (l *emptyLabels) Without(_ ...logql.Label) AggregatedLabels                 { return l }
-func (l *emptyLabels) Key() GroupingKey                                          { return 0 }
+func (l *emptyLabels) Key() GroupingKey                                          { return EmptyGroupingKey }
 func (l *emptyLabels) Replace(_, _, _ string, _ *regexp.Regexp) AggregatedLabels { return l }
 func (l *emptyLabels) AsLokiAPI() lokiapi.LabelSet                               { return lokiapi.LabelSet{} }
